@@ -27,6 +27,9 @@ TRUSTED = [
 ASSUMPTIONS = [
     'histories start from an object returned by write_ndarray_to_yanny for a document of the domain doc_ok (coq/Yanny/Render.v); '
     'raw mode: the written file re-opened with yanny(path, raw=True)',
+    'the directory may hold planted entries when the history starts (zero bytes, a lone newline, blanks, another yanny file, '
+    'garbage, a directory, a read-only file): write() is aimed at them; append targets are the own file or an absent name '
+    '(append onto a directory / read-only file raises other error classes and is not generated)',
     'text-seeded histories (hand-written text with char x[] / char x[n][] columns, appends of values longer than all present) '
     'are outside the domain of the theorems (doc_ok excludes undeclared lengths); they are compared with the model after every '
     'op (Model.CText) and decided by the direct checks object == fresh re-read == expected content',
